@@ -64,13 +64,13 @@ add('C08', ['C08Block', 'C08Inline', 'C08'], PIPE,
     'PARTIAL: as far as Props/C08*.lean state; the composition of both halves rests on correspondence where not proved.')
 add('C09', ['C09'], ['corr.normalize', 'corr.pipeline'],
     'Lean 4 proofs about the model of NormalizeWhitespace (line endings, tabs, STX/ETX, whitespace-only lines, leading/trailing blank lines), stated for the step list regenerated from the source; unit correspondence for tab lengths 0-8',
-    'PARTIAL: the normalisation theorems are full; the lift "the rest of convert reads only the normalised text" is by construction of the pipeline model and end-to-end correspondence. F-C09-1 (whitespace-only first line) is a kernel-checked counterexample.')
+    'PARTIAL: the normalisation theorems are full; the lift "the rest of convert reads only the normalised text" is by construction of the pipeline model and end-to-end correspondence. F-C09-1 (whitespace-only first line) was repaired (fix: commit a0e7e3c); the first-line theorems are now unconditional.')
 add('C10', ['C10', 'C09'], PIPE,
     'Lean 4 proofs: input cannot forge placeholders (normalisation strips STX/ETX), post-conditions of every restore step, placeholder invariants of the inline model on the pattern subset that cannot leak; the model leaks where the code leaks (kernel-checked)',
     'PARTIAL: link/reference/image/autolink/html/entity patterns and extensions are outside the proved subset (F-C10-1/2/3 live there).')
 add('C11', ['C11', 'C11Census'], [],
     'Lean 4 frame theorem on an abstract instance state machine (reset re-establishes the fresh state for every non-raising history) + census theorems decided by the kernel over tables regenerated from the source AST: every conversion-time write to instance state is re-initialised by reset() or on a justified allow-list',
-    'PARTIAL: the abstract model takes `convert` as a parameter; that the census categories are the right reading of the code is checked dynamically by the oracle (fresh vs reset instances, attribute census). F-C11-1 is the kernel-checked NoRaise counterexample.')
+    'PARTIAL: the abstract model takes `convert` as a parameter; that the census categories are the right reading of the code is checked dynamically by the oracle (fresh vs reset instances, attribute census). F-C11-1 was repaired (fix: commit f86514b): reset() clears parser.state, the theorems hold for every history; the pre-repair reset is kept as a labelled counterexample.')
 add('C12', ['C12', 'C11Census'], [],
     'Lean 4 schedule-independence theorem for confined threads over read-only/memo shared cells (every interleaving = sequential run) + kernel-decided census over the regenerated table of run-time writes to module/class-level state (must be on the memo allow-list)',
     'PARTIAL: CPython/GIL atomicity, `re` cache, importlib locks, xml.etree internals are trusted; a theorem about this model cannot exhibit a data race inside the interpreter. Threaded runs are the search.')
